@@ -18,6 +18,10 @@
  *   length  exact-size heap blocks of every length 0..64 and around 256/4096:
  *           the loop reads exactly n octets (ASan red zone behind the block)
  *   words   16-bit-word buffers of every length 0..64 cut at every position
+ *   prefix  every buffer of length 0..5 (thorough 0..6) over eight octets incl. 00
+ *           from six states incl. 0: one call, every cut, word variant
+ *   sparse  zero buffers of every length 1..64 (thorough 160) with one non-zero
+ *           octet at every position, then zeros or mix, at four start offsets
  *   long    structured boundary family of lengths: n = B + d for every power of
  *           two B = 2^16 .. 2^20 and d in {-1, 0, +1, +5} (octet variant: n octets,
  *           word variant: n words), non-periodic content in an exact-size heap
@@ -37,6 +41,8 @@
  *           octets, 2^31+5 words).
  */
 #include "mc.h"
+
+#include <time.h>
 
 #include <ufw/crc/crc16-arc.h>
 
@@ -458,6 +464,176 @@ mix16(uint64_t i)
     return (uint16_t)((i * 0x9E3779B97F4A7C15ull) >> 48);
 }
 
+/* ---- family: prefix (complete for short buffers) ------------------------------
+ * Every buffer of length 0..5 (thorough: 0..6) over an alphabet of eight octets
+ * that contains 00, from every state of a small set that contains 0: whatever
+ * an implementation does with the first few octets of a call (alignment
+ * prologue, a shortcut for leading zeros, a look at a multi-octet group) is
+ * exercised with every combination of zero and non-zero octets in every
+ * position, from the register values for which "zero input, zero register"
+ * holds and from some for which it does not.  One case = (state, length, first
+ * octet).  Per buffer: the octet variant in one call, continued at every cut,
+ * the from-zero function when the state is 0, the word variant when the length
+ * is even. */
+static const unsigned char PALPHA[8] = { 0x00, 0x01, 0x02, 0x7f, 0x80, 0xa5, 0xc0, 0xff };
+static const uint16_t PSTATES[6] = { 0x0000, 0x0001, 0x8000, 0xa001, 0x8005, 0xffff };
+
+static void
+family_prefix(void)
+{
+    const size_t maxlen = mc_thorough() ? 6 : 5;
+    for (int si = 0; si < 6; ++si)
+        for (size_t n = 0; n <= maxlen; ++n)
+            for (unsigned f = 0; f < (n ? 8u : 1u); ++f) {
+                const uint16_t st = PSTATES[si];
+                if (!mc_case("prefix state=%04x n=%zu first octet=%02x, the others every combination over "
+                             "{00,01,02,7f,80,a5,c0,ff}: one call, every cut, word variant",
+                             st, n, n ? PALPHA[f] : 0u))
+                    continue;
+                unsigned char *b = mc_exact(n); /* malloc alignment suits uint16_t */
+                size_t total = 1;
+                for (size_t i = 1; i < n; ++i)
+                    total *= 8;
+                bool bad = false;
+                for (size_t c = 0; c < total && !bad; ++c) {
+                    size_t r = c;
+                    if (n)
+                        b[0] = PALPHA[f];
+                    for (size_t i = n; i-- > 1;) {
+                        b[i] = PALPHA[r % 8];
+                        r /= 8;
+                    }
+                    uint16_t pre[8];
+                    pre[0] = st;
+                    for (size_t i = 0; i < n; ++i)
+                        pre[i + 1] = ref_octet(pre[i], b[i]);
+                    char hex[3 * 8 + 1];
+                    hex[0] = 0;
+                    for (size_t i = 0; i < n; ++i)
+                        snprintf(hex + 3 * i, 4, "%02x ", b[i]);
+                    const uint16_t whole = ufw_crc16_arc(st, b, n);
+                    mc_trans(1);
+                    if (whole != pre[n]) {
+                        mc_fail("C16/buffer-is-crc16-arc", "ufw_crc16_arc(0x%04x, {%s}, %zu) = 0x%04x, CRC-16/ARC gives 0x%04x", st,
+                                hex, n, whole, pre[n]);
+                        bad = true;
+                        break;
+                    }
+                    for (size_t k = 0; k <= n; ++k) {
+                        const uint16_t a = ufw_crc16_arc(st, b, k);
+                        const uint16_t ab = ufw_crc16_arc(a, b + k, n - k);
+                        mc_trans(2);
+                        if (a != pre[k]) {
+                            mc_fail("C16/buffer-is-crc16-arc",
+                                    "first %zu octets of {%s} from 0x%04x: 0x%04x, CRC-16/ARC gives 0x%04x", k, hex, st, a, pre[k]);
+                            bad = true;
+                            break;
+                        }
+                        if (ab != whole) {
+                            mc_fail("C16/concatenation-continues", "{%s} from 0x%04x cut at %zu: whole 0x%04x, continued 0x%04x",
+                                    hex, st, k, whole, ab);
+                            bad = true;
+                            break;
+                        }
+                    }
+                    if (bad)
+                        break;
+                    if (st == 0) {
+                        const uint16_t z = ufw_buffer_crc16_arc(b, n);
+                        mc_trans(1);
+                        if (z != pre[n]) {
+                            mc_fail("C16/buffer-starts-from-zero", "ufw_buffer_crc16_arc({%s}, %zu) = 0x%04x, CRC-16/ARC from 0 gives 0x%04x",
+                                    hex, n, z, pre[n]);
+                            bad = true;
+                            break;
+                        }
+                    }
+                    if (n % 2 == 0) {
+                        const uint16_t w = ufw_crc16_arc_u16(st, (const uint16_t *)(const void *)b, n / 2);
+                        mc_trans(1);
+                        if (w != pre[n]) {
+                            mc_fail("C16/word-variant-is-octet-image",
+                                    "ufw_crc16_arc_u16(0x%04x, %zu words with memory image {%s}) = 0x%04x, octet checksum of the "
+                                    "image is 0x%04x",
+                                    st, n / 2, hex, w, pre[n]);
+                            bad = true;
+                            break;
+                        }
+                    }
+                }
+                free(b);
+                mc_end(n > 0, n ? "prefix-agrees" : "empty-returns-state");
+            }
+}
+
+/* ---- family: sparse (one non-zero octet at every position) ---------------------
+ * A buffer of n octets (1..64, thorough 1..160) that is zero up to position p,
+ * holds x at p, and goes on with zeros or with non-periodic content; every p,
+ * x over eight values (thorough: all 255), from state 0 and from non-zero
+ * states, starting at every offset 0..3 from an 8-aligned address (the octet
+ * variant; word variant at offsets 0 and 2), in a heap block that ends with the
+ * buffer.  One case = (variant, state, n, offset, what follows). */
+static void
+family_sparse(void)
+{
+    static const uint16_t sts[4] = { 0x0000, 0xffff, 0xa001, 0x0001 };
+    static const unsigned xs[8] = { 0x01, 0x02, 0x10, 0x64, 0x7f, 0x80, 0xa5, 0xff };
+    const size_t nmax = mc_thorough() ? 160 : 64;
+    for (int words = 0; words < 2; ++words)
+        for (int si = 0; si < 4; ++si)
+            for (size_t n = 1; n <= nmax; ++n)
+                for (size_t off = 0; off < 4; off += words ? 2 : 1)
+                    for (int follow = 0; follow < 2; ++follow) {
+                        if (words && n % 2)
+                            continue;
+                        const uint16_t st = sts[si];
+                        if (!mc_case("sparse variant=%s state=%04x n=%zu octets at offset %zu of an aligned block: zeros, one octet x "
+                                     "at every position, then %s; x over %s",
+                                     words ? "words" : "octets", st, n, off, follow ? "mix" : "zeros",
+                                     mc_thorough() ? "01..ff" : "{01,02,10,64,7f,80,a5,ff}"))
+                            continue;
+                        unsigned char *blk = mc_exact(off + n);
+                        unsigned char *b = blk + off;
+                        bool bad = false;
+                        const unsigned nx = mc_thorough() ? 255 : 8;
+                        for (size_t p = 0; p < n && !bad; ++p)
+                            for (unsigned xi = 0; xi < nx && !bad; ++xi) {
+                                const unsigned x = mc_thorough() ? xi + 1 : xs[xi];
+                                memset(blk, 0, off + n);
+                                b[p] = (unsigned char)x;
+                                if (follow)
+                                    for (size_t i = p + 1; i < n; ++i)
+                                        b[i] = mix8(i + 7 * p);
+                                const uint16_t want = ref_buf(st, b, n);
+                                const uint16_t got = words ? ufw_crc16_arc_u16(st, (const uint16_t *)(const void *)b, n / 2)
+                                                           : ufw_crc16_arc(st, b, n);
+                                mc_trans(1);
+                                if (got != want) {
+                                    mc_fail(words ? "C16/word-variant-is-octet-image" : "C16/buffer-is-crc16-arc",
+                                            "%s over %zu octets (%zu zeros, then %02x, then %s) from 0x%04x = 0x%04x, CRC-16/ARC gives "
+                                            "0x%04x",
+                                            words ? "ufw_crc16_arc_u16" : "ufw_crc16_arc", n, p, x, follow ? "mix" : "zeros", st, got,
+                                            want);
+                                    bad = true;
+                                }
+                                if (!bad && st == 0) {
+                                    const uint16_t z = words ? ufw_buffer_crc16_arc_u16((const uint16_t *)(const void *)b, n / 2)
+                                                             : ufw_buffer_crc16_arc(b, n);
+                                    mc_trans(1);
+                                    if (z != want) {
+                                        mc_fail("C16/buffer-starts-from-zero",
+                                                "%s over %zu octets (%zu zeros, then %02x, then %s) = 0x%04x, CRC-16/ARC from 0 gives 0x%04x",
+                                                words ? "ufw_buffer_crc16_arc_u16" : "ufw_buffer_crc16_arc", n, p, x,
+                                                follow ? "mix" : "zeros", z, want);
+                                        bad = true;
+                                    }
+                                }
+                            }
+                        free(blk);
+                        mc_end(true, words ? "sparse-words-agree" : "sparse-agrees");
+                    }
+}
+
 /* ---- family: long (lengths straddling 2^16 .. 2^20) ----------------------- */
 
 static void
@@ -620,6 +796,31 @@ case_budget(int seconds)
 
 #define HUGE_HEAD 4098u
 #define HUGE_TAIL 4102u
+#define PROBE_OCTETS ((size_t)64 << 20)
+
+/* seconds per octet of one call of the variant over PROBE_OCTETS octets of `buf` (readable, >= 2^31 octets);
+ * the clock is only used to decide whether a case is run, it is never printed */
+static double
+huge_rate(bool words, const unsigned char *buf)
+{
+    static double rate[2];
+    if (rate[words] > 0.0)
+        return rate[words];
+    struct timespec t0, t1;
+    volatile uint16_t sink;
+    clock_gettime(CLOCK_MONOTONIC, &t0);
+    if (words)
+        sink = ufw_crc16_arc_u16(0xffff, (const uint16_t *)(const void *)buf, PROBE_OCTETS / 2);
+    else
+        sink = ufw_crc16_arc(0xffff, buf, PROBE_OCTETS);
+    clock_gettime(CLOCK_MONOTONIC, &t1);
+    (void)sink;
+    double dt = (double)(t1.tv_sec - t0.tv_sec) + 1e-9 * (double)(t1.tv_nsec - t0.tv_nsec);
+    if (dt < 1e-6)
+        dt = 1e-6;
+    rate[words] = dt / (double)PROBE_OCTETS;
+    return rate[words];
+}
 
 struct hugecase {
     bool words;
@@ -672,7 +873,24 @@ huge_case(const struct hugecase *h)
     want = ref_buf(want, tail, HUGE_TAIL);
     /* the table-driven code does 3..4 s per GiB under ASan, a correct bit-serial one about 10: leave room for
      * slow-but-right code on a busy machine; a real hang in the quick tier is still reported inside its deadline */
-    case_budget(mc_thorough() ? 120 + 60 * (int)(no >> 30) : 150);
+    const int budget = mc_thorough() ? 120 + 60 * (int)(no >> 30) : 150;
+    /* How fast is this implementation, now, on this machine?  One call of the same variant over 64 MiB of the
+     * zero region (measured once per process and variant).  A case whose projected duration does not fit its
+     * budget with a margin of one half is not run: a correct but slow checksum is a cap, never a `hang`. */
+    case_budget(100);
+    const double per_octet = huge_rate(h->words, buf);
+    if (per_octet * (double)no * 1.5 > (double)budget) {
+        static bool capped;
+        if (!capped) {
+            capped = true;
+            mc_cap("huge: at the measured throughput a multi-GiB call does not fit its time budget: such cases not run");
+        }
+        mc_log("not run: the throughput probe (64 MiB) projects more than the case's budget");
+        munmap(map, body + page);
+        mc_end(false, "huge-skipped-slow");
+        return;
+    }
+    case_budget(budget);
     uint16_t got;
     if (h->words)
         got = h->from_zero ? ufw_buffer_crc16_arc_u16((const uint16_t *)(const void *)buf, (size_t)n)
@@ -727,17 +945,25 @@ main(int argc, char **argv)
     family_split();
     family_length();
     family_words();
+    family_prefix();
+    family_sparse();
     family_long();
     family_chunked();
     mc_finish(true, mc_thorough()
         ? "all 2^24 (state,octet) steps; all 2^16 two-octet buffers and words from all 2^16 states; "
           "260 structured 4 KiB buffers x 3 initial values cut at every position; "
           "exact blocks of lengths 0..64,255..257,4095..4097; word buffers of lengths 0..64 cut at every position; "
+          "every buffer of length 0..6 over {00,01,02,7f,80,a5,c0,ff} from 6 states (one call, every cut, word variant); "
+          "zero buffers of every length 1..160 with one octet 01..ff at every position followed by zeros or mix, 4 states, "
+          "4 start offsets (octets) / 2 (words); "
           "lengths 2^k+{-1,0,1,5} for k=16..20 (octets and words) with 4 cuts; 2^20+5 octets / 2^19+2 words continued in "
           "chunks of 21 sizes; single calls over 2^31,2^32+{-1,0,1,5} and 2^33,2^34+{0,5} octets and 2^30,2^31,2^32+{0,5} words"
         : "all 2^24 (state,octet) steps; all 2^16 two-octet buffers and words from 6 states; "
           "13 structured 4 KiB buffers and 247 single-octet-then-zeros buffers of 256 octets x 3 initial values cut at every position; "
           "exact blocks of lengths 0..64,255..257,4095..4097; word buffers of lengths 0..64 cut at every position; "
+          "every buffer of length 0..5 over {00,01,02,7f,80,a5,c0,ff} from 6 states (one call, every cut, word variant); "
+          "zero buffers of every length 1..64 with one octet of {01,02,10,64,7f,80,a5,ff} at every position followed by zeros "
+          "or mix, 4 states, 4 start offsets (octets) / 2 (words); "
           "lengths 2^k+{-1,0,1,5} for k=16..20 (octets and words) with 4 cuts; 2^20+5 octets / 2^19+2 words continued in "
           "chunks of 21 sizes; single calls over 2^32+5 octets, 2^31+5 octets, 2^31+5 words");
     return 0;
